@@ -165,6 +165,23 @@ def judge_v1(part, tok_name, cls, variant="std", seq_len=3):
                 part.violation("C17|v1|over-redeem|hair", "a sale slightly above the GLP holding left a negative holding", dict(case, excess=str(hair)),
                                {"held": str(held), "held_after": str(m.glp_amount)})
             ctx.restore(mid)
+        # ---- rewards keep accruing on what is left after a partial sale (more than half sold, less than half sold) ---------------------------------
+        for frac_name, frac in (("sold-60%", Decimal("0.6")), ("sold-30%", Decimal("0.3"))):
+            try:
+                m.sell_glp(tok, (m.glp_amount * frac))
+            except Exception as e:  # noqa: BLE001
+                part.violation("C17|v1|sell-raised", "selling held GLP raised", dict(case, sell=frac_name), {"error": repr(e)[:200]})
+                ctx.restore(mid)
+                continue
+            held_p, r0_p = F(m.glp_amount), F(m.reward)
+            ctx.advance()
+            rp = ad.data.loc[ctx.index[ctx.bar - 1]]
+            want_p = F(Decimal(rp["interval"])) * 60 * held_p / F(Decimal(rp["glp"]))
+            part.count("v1_reward_bars")
+            if abs((F(m.reward) - r0_p) - want_p) > REL * max(want_p, Fraction(1, 10**30)):
+                part.violation("C17|v1|reward|after-partial-sale", "after a partial sale the remaining GLP did not earn interval x 60 x held / supply in the next bar", dict(case, sell=frac_name),
+                               {"got": str(m.reward - dec(r0_p)), "rule": float(want_p), "held": float(held_p)})
+            ctx.restore(mid)
         # ---- buy again with another token then sell everything for the first: total out <= total in (value terms) ---------------
         other = gmx.WAVAX if tok != gmx.WAVAX else gmx.WETH
         o_amt = Decimal(50)
